@@ -104,6 +104,56 @@ def resolve(sym, accessor, trailing_slash, locs, bad):
     sym.check("loaded-once-then-reused", again is obj)
 
 
+def expect_for(sym, c, accessor, bits, entries, root, bad_rel):
+    """(chosen relative file or None) for an accessor, by the documented precedence: current name before legacy name"""
+    for name in FILES[accessor]:
+        rel = os.path.normpath(os.path.relpath(os.path.join(c.compose_path, "metadata", name), root))
+        if rel in bits and bits[rel]:
+            return rel
+    return None
+
+
+def resolve_pair(sym, first, second, loc):
+    """two accessors read one after the other on the same object: each one is resolved on its own"""
+    entries = {"": None}
+    if loc:
+        entries[loc] = None
+    md = os.path.join(loc, "metadata")
+    entries[md] = None
+    tag = 0
+    kinds = {}
+    for acc in ("info", first, second):
+        for name in FILES[acc]:
+            rel = os.path.join(md, name)
+            if rel not in entries:
+                tag += 1
+                entries[rel] = make_doc(acc, tag)
+                kinds[rel] = acc
+    root, bits = sym.symbolic_fs(entries)
+    sym.assume(bits[os.path.join(md, "composeinfo.json")])
+    c = productmd.compose.Compose(root)
+    sym.cover("opened")
+    for acc in (first, second):
+        chosen = expect_for(sym, c, acc, bits, entries, root, None)
+        try:
+            obj = getattr(c, acc)
+            error = None
+        except RuntimeError as e:
+            obj = None
+            error = e
+        if chosen is None:
+            sym.check("missing-file-is-RuntimeError[%s]" % acc, error is not None)
+            continue
+        sym.check("loaded[%s]" % acc, error is None)
+        if error is not None:
+            continue
+        direct = CLASSES[acc]()
+        direct.loads(entries[chosen])
+        sym.check("equals-direct-load-of-that-file[%s]" % acc, obj.dumps() == direct.dumps())
+        sym.check("reused[%s]" % acc, getattr(c, acc) is obj)
+    sym.cover("accessed")
+
+
 def jobs(tier, seed):
     big = tier == "thorough"
     out = []
@@ -117,13 +167,16 @@ def jobs(tier, seed):
             for bi, name in enumerate(FILES[accessor]):
                 out.append({"harness": "resolve", "params": {"accessor": accessor, "trailing_slash": bool(bi), "locs": ["", "compose"],
                                                             "bad": [loc, name, (bi + len(loc)) % 2]}})
+    for first, second in (("images", "rpms"), ("rpms", "images"), ("images", "modules"), ("rpms", "info"), ("modules", "rpms")):
+        for loc in ("", "compose"):
+            out.append({"harness": "resolve_pair", "params": {"first": first, "second": second, "loc": loc}})
     for j in out:
         j["env_nondet"] = True        # the real listdir order is one of the orders explored symbolically
     return out
 
 
 META = {
-    "expected_covers": {"resolve": ["opened", "accessed"]},
+    "expected_covers": {"resolve": ["opened", "accessed"], "resolve_pair": ["opened", "accessed"]},
     "assumptions": [
         "symbolic file system (psx/stubs.py SymFS): a finite universe of candidate paths (the compose directory, its 'compose' and legacy subdirectories, their "
         "metadata directories and every current/legacy file name of the accessor), one existence bit per path constrained only by 'a path exists only if its parent does'; "
